@@ -224,6 +224,7 @@ let rt toks =
     let again = accs_from norm tbl ser in
     "ok" ^ jv_str (dump_accs accs) ^ " ;" ^ jv_str (JArr (Stdlib.List.map jv_of_adict ser)) ^ " ; "
     ^ res_str (fun l -> jv_str (dump_accs l)) again
+    ^ " ; " ^ (if Stdlib.List.for_all (wf_accb norm tbl) accs then "t" else "f")
   | r -> res_str (fun _ -> "") r
 
 (* entry <table> <cache entry>: _load_accessories_from_cache, then _update_accessories_state_cache *)
